@@ -29,9 +29,10 @@ func init() {
 			"(b) the whole C01 expression space (1.8M programs, valid and invalid) and the statement-rule programs under the default configuration, and the single-operator space again with each optional configuration absent or changed (no recorder, no node interpreter, nil HandleErr, NoSkipConstant, no source nodes); " +
 			"(c) an extremes table: constant shift counts 63..2^63, 10^4-digit literals, exponent 1e100000, 10^4-deep unary/binary/paren nesting, 10^4 arguments / cases / fields / statements. " +
 			"Oracle: a recovered panic value is never a runtime.Error (nil dereference, index out of range, failed type assertion, ...), every execution returns within 20 s and stays under 3 GiB. non-trivial = executions that ended in a reported error or panic; distinct = operation x operand kinds",
-		Assumptions: []string{"a panic carrying a non-runtime.Error value (CodeError, MatchError, string, error) is a reported error, as the builder's API documents", "the 20 s / 3 GiB limits are two orders of magnitude above any legitimate execution here"},
-		Run:         run,
-		Replay:      replay,
+		Assumptions:    []string{"a panic carrying a non-runtime.Error value (CodeError, MatchError, string, error) is a reported error, as the builder's API documents", "the 20 s / 3 GiB limits are two orders of magnitude above any legitimate execution here"},
+		ThoroughBudget: 60 * time.Minute,
+		Run:            run,
+		Replay:         replay,
 	})
 }
 
@@ -448,8 +449,12 @@ func extremes() []extreme {
 	out = append(out, extreme{"literal-10k-digits-mul", func(w *world) {
 		w.cb.VarRef(nil).Val(lit(token.INT, digits)).Val(lit(token.INT, digits)).BinaryOp(token.MUL).Assign(1)
 	}})
-	out = append(out, extreme{"float-exp-1e100000", func(w *world) { w.cb.VarRef(nil).Val(lit(token.FLOAT, "1e100000")).Val(2).BinaryOp(token.MUL).Assign(1) }})
-	out = append(out, extreme{"float-exp-1e-100000", func(w *world) { w.cb.VarRef(nil).Val(lit(token.FLOAT, "1e-100000")).Val(2).BinaryOp(token.QUO).Assign(1) }})
+	out = append(out, extreme{"float-exp-1e100000", func(w *world) {
+		w.cb.VarRef(nil).Val(lit(token.FLOAT, "1e100000")).Val(2).BinaryOp(token.MUL).Assign(1)
+	}})
+	out = append(out, extreme{"float-exp-1e-100000", func(w *world) {
+		w.cb.VarRef(nil).Val(lit(token.FLOAT, "1e-100000")).Val(2).BinaryOp(token.QUO).Assign(1)
+	}})
 	out = append(out, extreme{"float-10k-digits", func(w *world) { w.cb.VarRef(nil).Val(lit(token.FLOAT, "0."+digits)).Assign(1) }})
 	out = append(out, extreme{"unary-nesting-10k", func(w *world) {
 		w.cb.VarRef(nil).Val(w.env.Ref("VInt"))
